@@ -156,6 +156,7 @@ type tdScenario struct {
 	name       string
 	opts       simOpts
 	handshake  bool // the scenario itself is the handshake (no establish first)
+	simOpen    bool // both sides are clients (simultaneous open)
 	run        func(x *tdCtx, ev func() bool)
 	blockWrite bool
 	sides      []int  // sides on which the injection is tried (default both)
@@ -201,6 +202,9 @@ func tdPump(x *tdCtx, ev func() bool, maxEvents int, step time.Duration, idle in
 func tdScenarios() []tdScenario {
 	return []tdScenario{
 		{name: "handshake", opts: tdOpts(false), handshake: true, run: func(x *tdCtx, ev func() bool) {
+			tdPump(x, ev, 20, 0, 0, false)
+		}},
+		{name: "handshake-simopen", opts: tdOpts(false), handshake: true, simOpen: true, run: func(x *tdCtx, ev func() bool) {
 			tdPump(x, ev, 20, 0, 0, false)
 		}},
 		{name: "handshake-lossy", opts: tdOpts(false), handshake: true, run: func(x *tdCtx, ev func() bool) {
@@ -458,7 +462,7 @@ func tdRunCrashPoint(t *testing.T, sc tdScenario, k int, inj string, side int, r
 			res.mu.Unlock()
 		}
 		if sc.handshake {
-			s.startHandshake(false)
+			s.startHandshake(sc.simOpen)
 			s.settle()
 		} else if !s.establish() {
 			fail("handshake-failed", fmt.Sprintf("fault-free handshake did not complete: %v %v", s.hsErr[0], s.hsErr[1]))
